@@ -94,7 +94,16 @@ def obligations(ctx):
     E.extra_intrinsics[r"AssetCategorizer::get_next_pure_ada_utxo$"] = lambda E_, c, a: opt(R(VStruct("()", [VStruct("UtxoIndex", [VInt(0, "usize")]), VM.bn(E_.sym_int("utxo_coin", "u64"))]))) if E_.choose([g["has_next_ada_utxo"], z3.Not(g["has_next_ada_utxo"])], "next") == 0 else opt(None)
     E.extra_intrinsics[r"AssetCategorizer::get_next_pure_ada_utxo_by_amount$"] = lambda E_, c, a: VEnum("Result", "Ok", [VSeq([VStruct("()", [VStruct("UtxoIndex", [VInt(1, "usize")]), VM.bn(E_.sym_int("utxo_coin2", "u64"))])], "vec")]) if E_.choose([g["by_amount_ok"], z3.Not(g["by_amount_ok"])], "by amount") == 0 else VEnum("Result", "Err", [VOpaque("err")])
     E.extra_intrinsics[r"TxProposal::get_outputs$"] = lambda E_, c, a: R(VLazy("outputs", "std::vec::Vec<TxOutputProposal>"))
-    E.extra_intrinsics[r"TxProposal::(add_new_output|add_utxo)$"] = lambda E_, c, a: (setattr(VM.deref(E_, a[0]), "version", VM.deref(E_, a[0]).version + 1) if isinstance(VM.deref(E_, a[0]), VLazy) else None, VEnum("Result", "Ok", [UNIT]) if c.endswith("add_utxo") else UNIT)[1]
+    def prop_mut(E_, c, a):
+        p_ = VM.deref(E_, a[0])
+        if isinstance(p_, VLazy):
+            p_.version += 1
+        if c.endswith("add_utxo"):
+            u = VM.deref(E_, a[1])
+            E_.trace.append(("add_utxo", E_.concretize(u.fields[0].t) if isinstance(u, VStruct) else repr(u)))
+            return VEnum("Result", "Ok", [UNIT])
+        return UNIT
+    E.extra_intrinsics[r"TxProposal::(add_new_output|add_utxo)$"] = prop_mut
     E.extra_intrinsics[r"HashSet::<.*>::new$"] = lambda E_, c, a: VSeq([], "set")
     E.extra_intrinsics[r"HashSet::<.*>::insert$"] = lambda E_, c, a: (E_.read_ref(a[0]).items.append(a[1]), VBool(True))[1]
     E.extra_intrinsics[r"HashSet::<.*>::is_empty$"] = lambda E_, c, a: VBool(g["used_utxos_empty"]) if isinstance(VM.deref(E_, a[0]), VLazy) else VBool(len(VM.deref(E_, a[0]).items) == 0)
@@ -109,7 +118,9 @@ def obligations(ctx):
         return [R(me, "self"), R(VLazy("proposal", "TxProposal"), "tx_proposal")]
     ob = Obligation(ctx, "c13_e2_ada_top_up_respects_max_tx_size", "every measured size: all usize; max_tx_size: all u32; ADA needs: all u64; availability of further UTxOs arbitrary", ["AssetCategorizer::try_append_pure_ada_utxo"],
                     fallback_native="e2n_c13_send_all")
-    nsome = 0
+    ob2 = Obligation(ctx, "c13_e2_pure_ada_extension_reports_what_it_adds", "as c13_e2_ada_top_up_respects_max_tx_size: first UTxO taken or not, further UTxOs by amount", ["AssetCategorizer::try_append_pure_ada_utxo"],
+                     fallback_native="e2n_c13_spend_all")
+    nsome, npure = 0, 0
     for o in E.explore("AssetCategorizer::try_append_pure_ada_utxo", mk):
         if o.kind != "return":
             continue
@@ -120,13 +131,28 @@ def obligations(ctx):
             if not ms:
                 ob.violation("a proposal is returned without measuring its size"); continue
             ob.vc("a returned proposal's LAST measured size is within max_tx_size", o.pc, ms[-1][1] <= maxtx.t)
+            # spend-once bookkeeping: the UTxOs reported as taken (they leave the free list) are exactly those added to the proposal
+            ch = VM.deref(E, v.fields[0].fields[0])
+            taken = VM.deref(E, ch.fields[P.struct_fields["TxProposalChanges"].index("ada_utxos")])
+            added = sorted(t[1] for t in o.trace if t[0] == "add_utxo")
+            if not isinstance(taken, VSeq):
+                ob2.fail("ada_utxos of the returned changes is not a concrete list: %r" % (taken,))
+            else:
+                rep = sorted(E.concretize(VM.deref(E, x).fields[0].t) for x in taken.items)
+                npure += 1
+                if rep != added:
+                    ob2.violation("pure-ADA extension: UTxOs %s are added to the proposal, UTxOs %s are reported as taken (and leave the free list)" % (added, rep))
     if nsome == 0:
         ob.fail("no path returns a proposal")
     ob.finish(E)
+    if npure == 0:
+        ob2.fail("no path returns a proposal")
+    ob2.finish(Engine(P))
     utxo_stat_totals(ctx)
     witness_size_tracking(ctx)
     build_loop(ctx)
     create_tx_inputs(ctx)
+    extension_bookkeeping(ctx)
 
 
 def utxo_stat_totals(ctx):
@@ -417,4 +443,125 @@ def create_tx_inputs(ctx):
                 ob.fail("no Ok path (%d used, %d outputs)" % (nused, nout))
             agg.stats["paths"] += E.stats["paths"]; agg.stats["feasibility_queries"] += E.stats["feasibility_queries"]; agg.stats["functions"] |= E.stats["functions"]
     ob.cross_every = 4
+    ob.finish(agg)
+
+
+def extension_bookkeeping(ctx):
+    """'...exactly once': an extension step reports the UTxOs it added to the proposal (asset_utxo / ada_utxos); try_append_next_utxos
+    must take exactly those out of the free structures, and the two removal helpers must really remove the UTxO (and only it)."""
+    P = ctx.P
+    ob = Obligation(ctx, "c13_e2_taken_utxos_leave_the_free_lists", "extension step reporting 0..2 asset-carrying and 0..2 pure-ADA UTxOs as taken; free pure-ADA list of 1..3 entries; "
+                    "free asset maps over 2 UTxOs x 2 assets", ["AssetCategorizer::try_append_next_utxos", "AssetCategorizer::remove_pure_ada_utxo", "AssetCategorizer::remove_assets_utxo"],
+                    fallback_native="e2n_c13_spend_all")
+    agg = Engine(P)
+    def ui(k):
+        return VStruct("UtxoIndex", [VInt(z3.IntVal(k), "usize")])
+    def ai(k):
+        return VStruct("AssetIndex", [VInt(z3.IntVal(k), "usize")])
+    # ---- try_append_next_utxos removes what the step reports
+    n1 = 0
+    for na in (0, 1, 2):
+        for nd in (0, 1, 2):
+            E = Engine(P, max_loop=6)
+            E.U = agg.U
+            ha, hd = z3.Bool("has_assets"), z3.Bool("has_ada")
+            E.extra_intrinsics[r"AssetCategorizer::has_assets$"] = lambda E_, c, a, ha=ha: VBool(z3.BoolVal(True)) if E_.choose([ha, z3.Not(ha)], "has assets") == 0 else VBool(z3.BoolVal(False))
+            E.extra_intrinsics[r"AssetCategorizer::has_ada$"] = lambda E_, c, a, hd=hd: VBool(z3.BoolVal(True)) if E_.choose([hd, z3.Not(hd)], "has ada") == 0 else VBool(z3.BoolVal(False))
+            def step(E_, c, a, na=na, nd=nd):
+                r = E_.fresh("step_outcome")
+                i = E_.choose([r == 0, r == 1, r == 2], "extension step")
+                if i == 2:
+                    return VEnum("Result", "Err", [VOpaque("err")])
+                if i == 1:
+                    return VEnum("Result", "Ok", [opt(None)])
+                E_.trace.append(("step", c.split("::")[-1]))
+                ch = E_.mk_struct("TxProposalChanges", tx_proposal=VLazy("extended", "TxProposal"), makes_new_outputs=VBool(z3.Bool("mno")),
+                                  asset_utxo=VSeq([ui(10 + k) for k in range(na)], "vec"), ada_utxos=VSeq([ui(20 + k) for k in range(nd)], "vec"))
+                return VEnum("Result", "Ok", [opt(ch)])
+            E.extra_intrinsics[r"AssetCategorizer::try_append_next_asset_utxos$"] = step
+            E.extra_intrinsics[r"AssetCategorizer::try_append_pure_ada_utxo$"] = step
+            def rem(kind):
+                def f(E_, c, a):
+                    u = VM.deref(E_, a[1])
+                    E_.trace.append((kind, E_.concretize(u.fields[0].t)))
+                    return UNIT
+                return f
+            E.extra_intrinsics[r"AssetCategorizer::remove_assets_utxo$"] = rem("rm_asset")
+            E.extra_intrinsics[r"AssetCategorizer::remove_pure_ada_utxo$"] = rem("rm_ada")
+            for o in E.explore("AssetCategorizer::try_append_next_utxos", lambda: [R(VLazy("groups", "AssetCategorizer"), "self"), R(VLazy("proposal", "TxProposal"), "tx_proposal")], max_paths=200):
+                if o.kind != "return":
+                    ob.vc("no panic in try_append_next_utxos (%s %s)" % (o.kind, o.msg[:60]), o.pc, z3.BoolVal(False)); continue
+                v = o.value
+                took = any(t[0] == "step" for t in o.trace)
+                ra, rd = sorted(t[1] for t in o.trace if t[0] == "rm_asset"), sorted(t[1] for t in o.trace if t[0] == "rm_ada")
+                if v.variant == "Ok" and v.fields[0].variant == "Some":
+                    n1 += 1
+                    pr = VM.deref(E, v.fields[0].fields[0])
+                    if not (isinstance(pr, VLazy) and pr.path == "extended"):
+                        ob.violation("the proposal handed back is not the one the extension step built")
+                    if ra != [10 + k for k in range(na)] or rd != [20 + k for k in range(nd)]:
+                        ob.violation("the step reports asset UTxOs %s and pure-ADA UTxOs %s as taken; removed from the free structures: %s / %s" % ([10 + k for k in range(na)], [20 + k for k in range(nd)], ra, rd))
+                elif took or ra or rd:
+                    if took and v.variant == "Ok":
+                        ob.violation("an extension was built (UTxOs added to a proposal) but no proposal is handed back")
+                    elif ra or rd:
+                        ob.violation("UTxOs %s / %s are removed from the free structures although no extended proposal is handed back" % (ra, rd))
+            agg.stats["paths"] += E.stats["paths"]; agg.stats["feasibility_queries"] += E.stats["feasibility_queries"]; agg.stats["functions"] |= E.stats["functions"]
+    if n1 == 0:
+        ob.fail("try_append_next_utxos: no path hands back a proposal")
+    # ---- remove_pure_ada_utxo: the entry of that UTxO disappears, the others stay in order
+    n2 = 0
+    for n in (1, 2, 3):
+        for k in list(range(n)) + [7]:
+            E = Engine(P, max_loop=n + 3)
+            E.U = agg.U
+            def mk(E=E, n=n, k=k):
+                lst = VSeq([VStruct("()", [ui(j), VM.bn(E.sym_int("coin%d" % j, "u64"))]) for j in range(n)], "vec")
+                return [R(E.mk_struct("AssetCategorizer", free_ada_utxos=lst), "self"), R(ui(k), "utxo")]
+            try:
+                outs = E.explore("AssetCategorizer::remove_pure_ada_utxo", mk, max_paths=100)
+            except Unsupported as e:
+                ob.fail("remove_pure_ada_utxo cannot be executed (%s)" % str(e)[:160]); break
+            for o in outs:
+                if o.kind != "return":
+                    ob.vc("no panic in remove_pure_ada_utxo (%s %s)" % (o.kind, o.msg[:60]), o.pc, z3.BoolVal(False)); continue
+                n2 += 1
+                me = VM.deref(E, o.args[0])
+                left = [E.concretize(VM.deref(E, VM.deref(E, x).fields[0]).fields[0].t) for x in VM.deref(E, me.fields[P.struct_fields["AssetCategorizer"].index("free_ada_utxos")]).items]
+                if left != [j for j in range(n) if j != k]:
+                    ob.violation("free pure-ADA list %s, removing UTxO %d leaves %s" % (list(range(n)), k, left))
+            agg.stats["paths"] += E.stats["paths"]; agg.stats["functions"] |= E.stats["functions"]
+    # ---- remove_assets_utxo: the UTxO leaves both maps; an asset without free UTxOs leaves the asset map (has_assets looks at it)
+    n3 = 0
+    holds = {0: [0, 1], 1: [1]}          # UTxO -> assets
+    for k in (0, 1, 5):
+        E = Engine(P, max_loop=6)
+        E.U = agg.U
+        def mk(E=E, k=k):
+            u2a = VSeq([VStruct("()", [ui(u), VSeq([ai(a) for a in assets], "set")]) for u, assets in holds.items()], "hmap")
+            a2u = VSeq([VStruct("()", [ai(a), VSeq([ui(u) for u, assets in holds.items() if a in assets], "set")]) for a in (0, 1)], "hmap")
+            return [R(E.mk_struct("AssetCategorizer", free_utxo_to_assets=u2a, free_asset_to_utxos=a2u), "self"), R(ui(k), "utxo")]
+        try:
+            outs = E.explore("AssetCategorizer::remove_assets_utxo", mk, max_paths=200)
+        except Unsupported as e:
+            ob.fail("remove_assets_utxo cannot be executed (%s)" % str(e)[:200]); break
+        for o in outs:
+            if o.kind != "return":
+                ob.vc("no panic in remove_assets_utxo (%s %s)" % (o.kind, o.msg[:60]), o.pc, z3.BoolVal(False)); continue
+            n3 += 1
+            me = VM.deref(E, o.args[0])
+            F = P.struct_fields["AssetCategorizer"]
+            idx = lambda v: E.concretize(VM.deref(E, v).fields[0].t)
+            u2a = {idx(VM.deref(E, it).fields[0]): sorted(idx(x) for x in VM.deref(E, VM.deref(E, it).fields[1]).items) for it in VM.deref(E, me.fields[F.index("free_utxo_to_assets")]).items}
+            a2u = {idx(VM.deref(E, it).fields[0]): sorted(idx(x) for x in VM.deref(E, VM.deref(E, it).fields[1]).items) for it in VM.deref(E, me.fields[F.index("free_asset_to_utxos")]).items}
+            want_u2a = {u: a for u, a in holds.items() if u != k}
+            want_a2u = {}
+            for u, assets in want_u2a.items():
+                for a in assets:
+                    want_a2u.setdefault(a, []).append(u)
+            if u2a != want_u2a or a2u != {a: sorted(v) for a, v in want_a2u.items()}:
+                ob.violation("removing UTxO %d from %s leaves utxo->assets %s and asset->utxos %s (expected %s / %s)" % (k, holds, u2a, a2u, want_u2a, want_a2u))
+        agg.stats["paths"] += E.stats["paths"]; agg.stats["functions"] |= E.stats["functions"]
+    if n2 == 0 or n3 == 0:
+        ob.fail("removal helpers: %d / %d paths executed" % (n2, n3))
     ob.finish(agg)
